@@ -358,6 +358,25 @@ Proof.
 Qed.
 Print Assumptions C01_hash_observation.
 
+(* 20. a version sits strictly above its own public version exactly when it has a local label, and equals it otherwise: for every accepted
+       string, `Version(v.public) < v` iff `v.local is not None`, decided by all six operators *)
+Theorem C01_public_below_local a v : Version a = Some v -> local v <> None ->
+  Version (public_str v) = Some (drop_local v) /\ pep440_cmp (drop_local v) v = Lt /\ strictly_below (drop_local v) v.
+Proof.
+  intros Ha L. pose proof (Version_wf a v Ha) as W. pose proof (Version_public v W) as P. split; [exact P|].
+  assert (C : pep440_cmp (drop_local v) v = Lt).
+  { rewrite local_last; [| split; [reflexivity | apply padcmp_refl] | reflexivity | reflexivity | reflexivity].
+    cbn [drop_local local]. destruct (local v) as [l|]; [reflexivity | congruence]. }
+  split; [exact C|]. apply (C01_below_iff (public_str v) a (drop_local v) v P Ha). exact C.
+Qed.
+Print Assumptions C01_public_below_local.
+Theorem C01_public_equal_without_local a v : Version a = Some v -> local v = None -> drop_local v = v /\ pep440_cmp (drop_local v) v = Eq.
+Proof.
+  intros Ha L. assert (E : drop_local v = v) by (destruct v; cbn in L |- *; unfold drop_local; cbn; now subst).
+  split; [exact E|]. rewrite E. apply (ok_refl _ pep440_cmp_ok).
+Qed.
+Print Assumptions C01_public_equal_without_local.
+
 (* non-vacuity: two accepted spellings of equal versions, and a strict chain  1.0.dev1 < 1.0a1 < 1.0 < 1.0+a < 1.0.post0 *)
 Definition nonvac_check : bool :=
   match Version [32;118;49;46;48;46;48;45;82;67;46;49], Version [49;99;49] with
